@@ -177,6 +177,7 @@ func topicSeq(st *mem.State, name string) int {
 }
 
 type c09Obs struct {
+	tainted map[string]bool
 	known      func(*kit.Viol) bool
 	att        *wAttach
 	pre        *mem.State
@@ -191,6 +192,11 @@ type c09Obs struct {
 func (o *c09Obs) Before(w *wWorld, op *wOp) {
 	o.pre = mem.A.Snapshot()
 	o.preLive = w.liveTopics()
+	for r := range o.tainted {
+		if o.preLive[r] == nil {
+			delete(o.tainted, r) // unloaded: the next load reads the store
+		}
+	}
 	o.preAtt = map[int]map[string]wAtt{}
 	for s, m := range o.att.att {
 		o.preAtt[s] = map[string]wAtt{}
@@ -223,20 +229,36 @@ func (o *c09Obs) cacheAgrees(route, row string, uid types.Uid) bool {
 	if rok && r.deleted {
 		rok = false
 	}
+	// A disagreement between the loaded topic and the store is excused only where a listed cause
+	// explains it: a {set} served for a non-attached session on this topic (offline-set-while-loaded)
+	// or a channel reader's record (marks are not cached for readers, pinned by the repository's tests).
+	// Everywhere else the stored, acknowledged state is the truth and the note is judged against it.
+	excused := o.tainted[route] || (ok && pud.isChan)
 	if ok != rok {
-		return false
+		return !excused
 	}
 	if !ok {
 		return true
 	}
 	if pud.modeWant != r.want || pud.modeGiven != r.given {
-		return false
+		return !excused
 	}
-	return pud.readID == r.read && max(pud.recvID, pud.readID) == effRecv(r)
+	if pud.readID == r.read && max(pud.recvID, pud.readID) == effRecv(r) {
+		return true
+	}
+	return !excused
 }
 
 func (o *c09Obs) After(w *wWorld, st *wStep) *kit.Viol {
 	defer o.att.update(w, st)
+	if st.Op.K == "set" && !st.Skipped && st.Route != "" {
+		if _, attached := o.preAtt[st.Sess][st.Route]; !attached && o.preLive[st.Route] != nil {
+			o.tainted[st.Route] = true
+		}
+	}
+	if st.Op.K == "restart" || st.Crashed {
+		o.tainted = map[string]bool{}
+	}
 	post := mem.A.Snapshot()
 	pre, now := markRows(o.pre), markRows(post)
 	// ---- bounds and monotonicity of every stored subscription, after every step
@@ -449,7 +471,7 @@ func (o *c09Obs) After(w *wWorld, st *wStep) *kit.Viol {
 func c09Exec(t *testing.T, r *kit.Run) func(wProg) kit.Outcome {
 	return func(p wProg) kit.Outcome {
 		r.WAL(p)
-		obs := &c09Obs{att: newWAttach(), validKinds: map[string]map[string]bool{}}
+		obs := &c09Obs{att: newWAttach(), validKinds: map[string]map[string]bool{}, tainted: map[string]bool{}}
 		obs.known = func(v *kit.Viol) bool { return r.IsKnown(v.Sig) && r.Violation(v, p) }
 		var res wRunResult
 		fail := wInBubble(t, func() { res = wExec(&p, obs, nil) })
